@@ -15,7 +15,7 @@
   `inContract` excludes exactly these; the theorems named `…_partial` are proved for every history of in-contract
   operations, the full statements are kept as `…_statement` and refuted (`…_refuted`) on concrete witnesses.
 -/
-import CelloProofs.Lemmas.OwnHist
+import CelloProofs.Lemmas.OwnRefused
 import CelloProofs.Lemmas.OwnProfile
 import CelloGen.Own
 
@@ -170,6 +170,15 @@ theorem C05_never_while_contained_partial {w : World} (hinv : Inv w) (op : Op) (
   · exact inv_disjoint (run_inv hs.inv later hlater) _ (run_retired_mono hs.inv later hlater _ hlog)
   · exact List.mem_append.mp (hs.cons.mem_iff.mp (List.mem_append_right _ hid))
 
+/-- A refused in-contract operation (empty pop, bad index, absent element or key, refused resize) constructs
+    nothing, finalises nothing, assigns nothing and leaves every container as it was: no element changes hands on an
+    error path.  (The one error path that did — List_Push_At — was repaired by 4077d96, see
+    `C05_list_pushat_old_order_refuted`.) -/
+theorem C05_refused_no_effect_partial {w : World} (op : Op) (hin : inContract w op = true)
+    (hr : (step w op).2.out ≠ .ok) :
+    (step w op).2.issued = [] ∧ (step w op).2.retired = [] ∧ (step w op).2.updated = [] ∧
+    ∀ e, lookup (step w op).1.objs e = lookup w.objs e := step_refused op hin hr
+
 /-- the full statement, for every operation -/
 def C05_never_while_contained_statement : Prop :=
   ∀ (ops : List Op), ∀ i ∈ (run {} ops).1.retiredLog, i ∉ allIds (run {} ops).1.objs
@@ -234,6 +243,66 @@ theorem C05_deep_partial {w : World} (hinv : Inv w) {c d : Nat} {x : Cont}
     have hperm : (Cont.map k (mapAssign k w.next [] src).val).toks ~ o.issued := by
       rw [hiss]; simpa [Cont.toks, mapAssign] using h5
     refine ⟨_, hlk, hperm, ?_, hs.fresh, hret, hframe, hdisj _ hlk hperm⟩
+    rw [hiss]
+    simp only [mapAssign, h1, Cont.toks, kvToks]
+    simp [List.flatMap_map, List.map_flatMap]
+
+/-- **C05_deep (assign).** `assign(c, d)` between two different containers of the same family (Array↔List, Table↔Tree,
+    probe elements) finalises exactly what `c` held, constructs one fresh element per element of `d` with the same
+    payloads, after which `c` holds exactly these, none of them an element of `d`, and `d` is unchanged. -/
+theorem C05_deep_assign_partial {w : World} (hinv : Inv w) {c d : Nat} {x y : Cont} (hcd : c ≠ d)
+    (hc : lookup w.objs c = some y) (hd : lookup w.objs d = some x) (hbx : x.isBox = false) (hby : y.isBox = false)
+    (hfam : (∃ k ek xs k' ek' ys, y = .seq k ek xs ∧ x = .seq k' ek' ys) ∨ (∃ k kvs k' src, y = .map k kvs ∧ x = .map k' src)) :
+    let w' := (step w (.assign c d)).1
+    let o := (step w (.assign c d)).2
+    ∃ z, lookup w'.objs c = some z ∧ z.toks ~ o.issued ∧ o.issued.map (·.pay) = x.toks.map (·.pay) ∧
+      FreshFrom w.next o.issued ∧ o.retired = y.toks ∧ lookup w'.objs d = some x ∧
+      (∀ i ∈ ids z.toks, i ∉ ids x.toks) := by
+  intro w' o
+  have hin : inContract w (.assign c d) = true := by simp [inContract, srcIsBox, hd, hbx]
+  have hs := step_ok hinv (.assign c d) hin
+  have hframe : lookup w'.objs d = some x := by rw [← hd]; exact step_frame w (.assign c d) (Ne.symm hcd)
+  have hdisj : ∀ z : Cont, z.toks ~ o.issued → ∀ i ∈ ids z.toks, i ∉ ids x.toks := by
+    intro z hz i hi hix
+    have h1 : i ∈ ids o.issued := (ids_perm hz).mem_iff.mp hi
+    have h2 := (hs.fresh.ge i h1).1
+    have h3 : i ∈ w.issuedLog := hinv.cons.mem_iff.mpr (List.mem_append_right _ (ids_sub_allIds hd i hix))
+    have := (hinv.bound i h3).2
+    omega
+  rcases hfam with ⟨k, ek, xs, k', ek', src, rfl, rfl⟩ | ⟨k, kvs, k', src, rfl, rfl⟩
+  · cases ek' with
+    | box => simp [Cont.isBox] at hbx
+    | probe =>
+      cases ek with
+      | box => simp [Cont.isBox] at hby
+      | probe =>
+        have hw' : w' = (commitSeq w c k .probe (seqAssignProbe w.next xs src) [c, d] false).1 := by
+          simp only [w', step, hc, hd, hcd, if_false]; rfl
+        have ho : o = (commitSeq w c k .probe (seqAssignProbe w.next xs src) [c, d] false).2 := by
+          simp only [o, step, hc, hd, hcd, if_false]; rfl
+        have hiss : o.issued = mkFresh w.next (src.map (·.pay)) := by rw [ho]; rfl
+        have hret : o.retired = xs := by rw [ho]; simp [commitSeq, commit, seqAssignProbe, Res.unit]
+        have hlk : lookup w'.objs c = some (.seq k .probe (mkFresh w.next (src.map (·.pay)))) := by
+          rw [hw']; simp only [commitSeq, commit_objs]; exact lookup_objsAfter_self _ _ _
+        exact ⟨_, hlk, by rw [hiss]; exact Perm.refl _, by rw [hiss]; simp [pays_mkFresh, Cont.toks],
+          hs.fresh, hret, hframe, hdisj _ (by rw [hiss]; exact Perm.refl _)⟩
+  · have hkeys := inv_keys hinv hd
+    have hw' : w' = (commitMap w c k (mapAssign k w.next kvs src) [c, d]).1 := by
+      simp only [w', step, hc, hd, hcd, if_false]
+    have ho : o = (commitMap w c k (mapAssign k w.next kvs src) [c, d]).2 := by
+      simp only [o, step, hc, hd, hcd, if_false]
+    have hpairs : ((src.map (fun kv => (kv.1.pay, kv.2.pay))).map (·.1)).Nodup := by
+      simpa [keys, List.map_map, Function.comp_def] using hkeys
+    obtain ⟨h1, h2, h3, h4, h5⟩ := mapSetMany_distinct k (src.map (fun kv => (kv.1.pay, kv.2.pay))) w.next []
+      (by simp [keys]) hpairs (by simp [keys])
+    have hiss : o.issued = (mapAssign k w.next kvs src).issued := by rw [ho]; rfl
+    have hret : o.retired = kvToks kvs := by
+      rw [ho]; simp [commitMap, commit, mapAssign, Res.unit, h2]
+    have hlk : lookup w'.objs c = some (.map k (mapAssign k w.next kvs src).val) := by
+      rw [hw']; simp only [commitMap, commit_objs]; exact lookup_objsAfter_self _ _ _
+    have hperm : (Cont.map k (mapAssign k w.next kvs src).val).toks ~ o.issued := by
+      rw [hiss]; simpa [Cont.toks, mapAssign] using h5
+    refine ⟨_, hlk, hperm, ?_, hs.fresh, hret, hframe, hdisj _ hperm⟩
     rw [hiss]
     simp only [mapAssign, h1, Cont.toks, kvToks]
     simp [List.flatMap_map, List.map_flatMap]
